@@ -182,10 +182,16 @@ Record tx_case := mk_tx {
   t_explicit_refs : list txin;            (* add_reference_input / add_script_reference_input calls *)
   t_signers : list bytes;                 (* add_required_signer calls *)
   t_mint : option (list mint_op);         (* MintBuilder history, if a mint builder is set *)
-  t_native : list bytes;                  (* native scripts as the builder combines them (inputs, collateral, mint ...) *)
+  t_native : list bytes;                  (* native scripts in the order the builder combines them: inputs ([input_script_order]), collateral, mint (policy order),
+                                             certificates, withdrawals (insertion order) — get_combined_native_scripts *)
   t_plutus : list pscript;                (* scripts of the Plutus witnesses (inputs, collateral, mint, certificates, withdrawals ...), witness-script sources only *)
   t_wit_datums : list datum;              (* datums carried by those Plutus witnesses, in the builder's combination order *)
   t_extra_datums : list datum }.          (* add_extra_witness_datum calls *)
+
+(* order in which the inputs builder hands over the native scripts of its script inputs: `required_witnesses.scripts` is a
+   hashlink LinkedHashMap filled through `entry(hash).or_insert(..)`, which MOVES an existing entry to the back
+   (tx_inputs_builder.rs:462-474): the script groups are ordered by the LAST input added for each script *)
+Definition input_script_order (l : list bytes) : list bytes := rev (first_occ bytes_eqb (rev l)).
 
 Definition tin_set (l : list txin) : list txin := map fst (fold_left tset_add l []).   (* BTreeMap keys: sorted, unique *)
 Record tx_obs := mk_txo {
@@ -232,6 +238,7 @@ Definition judge_tx (c : tx_case) (o : tx_obs) (all_builds_equal : bool) : bool 
   && txins_nodupb (x_refs o) && same_txins (x_refs o) want_refs
   && list_eqb (x_signers o) (first_occ bytes_eqb (t_signers c))
   && nodupb (x_native o) && nodupb (x_data o) && judge_fields (x_plutus o)
+  && list_eqb (x_native o) (first_occ bytes_eqb (t_native c))     (* native scripts: first-insertion order of the builder's combination *)
   && forallb (fun s => mem bytes_eqb s (x_native o)) (t_native c)
   && forallb (fun d => mem bytes_eqb (d_emit d) (x_data o)) (t_wit_datums c ++ t_extra_datums c)
   && forallb (fun s => existsb (fun f => (fst f =? match ps_lang s with 1 => 3 | 2 => 6 | _ => 7 end)
